@@ -3,7 +3,7 @@
 (* hazard tags HCache!Tags computes for it on the state it is applied to.  Three uses:                 *)
 (*   Mode = "seq"    every call sequence of length MaxLen, canonical up to renaming of ids (a call may  *)
 (*                   use a new id only if it is the smallest unused one) and, on a case-sensitive       *)
-(*                   provider, of names (the first name that occurs is "a");                            *)
+(*                   provider, of names (the first name that occurs is "a"; also in graph mode);        *)
 (*   Mode = "graph"  with VIEW GraphView: one shortest history per distinct (state, call) of the model, *)
 (*                   where the history leading to the state avoids the Hazards tags (so the last call   *)
 (*                   really is applied to that state in the code) -- every state of the hazard-free     *)
@@ -28,23 +28,32 @@ IdOK(c) ==
   CASE Mode = "seq"   -> c.i <= Max(UsedIds) + 1
     [] Mode = "graph" -> c.i \in IdsOf(node) \/ c.i = 0 \/ \A j \in Ids \ IdsOf(node) : c.i <= j
     [] OTHER          -> TRUE
-NameOK(c) == Mode = "seq" /\ ~CaseFold /\ ~NamesSeen /\ Len(c.p) > 0 => c.p[1] = "a"
+NameOK(c) == Mode \in {"seq", "graph"} /\ ~CaseFold /\ ~NamesSeen /\ Len(c.p) > 0 => c.p[1] = "a"
 
 GenInit == node = Empty /\ h = <<>> /\ prev = Empty /\ stop = FALSE
+Step(c) ==
+  /\ Do(c)
+  /\ h' = Append(h, Tagged(node, c))
+  /\ prev' = node
+  /\ stop' = (Mode = "graph" /\ Tags(node, c) \cap Hazards # {})
 GenNext ==
-  /\ Len(h) < MaxLen /\ ~stop
-  /\ \E c \in AllCalls :
-        /\ c.op \in Ops
-        /\ Mode = "graph" /\ Len(h) = MaxLen - 1 => c.op \in LastOps
-        /\ IdOK(c) /\ NameOK(c)
-        /\ Do(c)
-        /\ h' = Append(h, Tagged(node, c))
-        /\ prev' = node
-        /\ stop' = (Mode = "graph" /\ Tags(node, c) \cap Hazards # {})
+  \/ /\ Mode # "sim" /\ Len(h) < MaxLen /\ ~stop
+     /\ \E c \in AllCalls :
+           /\ c.op \in Ops
+           /\ Mode = "graph" /\ Len(h) = MaxLen - 1 => c.op \in LastOps
+           /\ IdOK(c) /\ NameOK(c)
+           /\ Step(c)
+  \* simulation: one uniformly drawn enabled call per step (TLC would otherwise build every successor to pick one)
+  \/ /\ Mode = "sim" /\ Len(h) < MaxLen
+     /\ \E c \in {RandomElement({d \in AllCalls : d.op \in Ops /\ Fits(node, d)})} : Step(c)
+  \/ /\ Mode = "sim" /\ Len(h) = MaxLen /\ ~stop      \* one closing step, so that a simulated behaviour is printed once
+     /\ stop' = TRUE /\ UNCHANGED <<node, h, prev>>
 GenSpec == GenInit /\ [][GenNext]_gvars
 
 Strip(e) == Call(e.op, e.p, e.q, e.i, e.t, e.m, e.k)
 GraphView == IF Mode = "graph" THEN <<prev, IF Len(h) = 0 THEN NoCall ELSE Strip(h[Len(h)])>> ELSE gvars
 
-Emit == (IF Mode = "graph" THEN Len(h) > 0 /\ h[Len(h)].op \in LastOps ELSE Len(h) = MaxLen) => PrintT("@@" \o ToJson(h))
+Emit == (CASE Mode = "graph" -> Len(h) > 0 /\ h[Len(h)].op \in LastOps
+           [] Mode = "sim"   -> stop
+           [] OTHER          -> Len(h) = MaxLen) => PrintT("@@" \o ToJson(h))
 =============================================================================
